@@ -9,6 +9,7 @@ CONSTANTS
   MaxArity = 2
   Lanes = TRUE
   Record = FALSE
+  Sim = FALSE
   Bug = "none"
 INVARIANT RoutesAgree
 INVARIANT NamingKept
